@@ -45,7 +45,10 @@ def describe(t: dict, r: dict):
                 folded = x[0].casefold() == y[0].casefold()
                 if clause.endswith("OnlyCase") and not folded:
                     kind = x[2]
-                    diff = "underscore_insertion" if x[0].replace("_", "").casefold() == y[0].replace("_", "").casefold() else "other"
+                    if x[0].replace("_", "").casefold() == y[0].replace("_", "").casefold():
+                        diff = "underscore_insertion" if len(y[0]) > len(x[0]) else "underscore_removal"
+                    else:
+                        diff = "other"
                     detail = f"{x[0]!r} -> {y[0]!r}"
                     break
                 if clause.endswith("Kind") and folded:
